@@ -1,4 +1,5 @@
 import Librfn.Model.Messageq
+import Librfn.Model.SkeletonTypes
 /-! Executable interleaving model of `librfn/messageq.c` at the granularity of individual atomic operations (C04).
 
 Any number of sender threads (`senders : List SPc`, one program counter each) run
@@ -187,5 +188,56 @@ def RPc.ticket? : RPc → Option Nat
 def holds (s : St) : Party → Option (BitVec 8)
   | .sender i => (s.senders[i]?).bind SPc.slot?
   | .receiver => s.recv.slot?
+
+/-! ### The model's own atomic-operation skeleton (tie S)
+
+Written by hand from the step functions above (and from `Model/Messageq.lean` for the plain geometry reads): one `Site`
+per shared access of each function of messageq.c / messageq.h, in evaluation order, with the memory order the
+interleaving semantics relies on (all `seq_cst`).  The three counters/flag words are touched by atomic operations
+only; `receivep` is a plain field touched only by the receiver's functions; `basep`, `msg_len`, `queue_len` are written
+by `messageq_init` before any thread exists and only read afterwards.  `Props/C04.lean` proves
+`Gen.Skeleton.messageq = skeleton` against the table extracted from the current source on every run. -/
+section Skeleton
+open Librfn.Skeleton
+
+private def sc (k : Kind) (obj : String) (ctx : List String) : Site := ⟨k, obj, .seqCst, .na, ctx⟩
+private def pl (k : Kind) (obj : String) (ctx : List String) : Site := ⟨k, obj, .na, .na, ctx⟩
+
+def skeleton : CUnit where
+  funcs := [
+    ⟨"messageq_init", [                                  -- runs before the threads exist (`init`)
+        pl .call "memset" [], pl .plainWrite "mq->basep" [], pl .plainWrite "mq->msg_len" [],
+        pl .plainWrite "mq->queue_len" [], sc .store "mq->num_free" []]⟩,
+    ⟨"messageq_claim", [
+        sc .fetchSub "mq->num_free" [],                  -- SPc.idle    → gotPerm | failed
+        sc .fetchAdd "mq->num_free" ["if#1.then"],       -- SPc.failed  → idle (return NULL)
+        sc .load "mq->sendp" [],                         -- SPc.gotPerm → loaded
+        pl .plainRead "mq->queue_len" ["loop#1.body", "cond#1.cond"],     -- nextSend
+        ⟨.casWeak, "mq->sendp", .seqCst, .seqCst, ["loop#1.cond"]⟩,      -- SPc.loaded  → hasSlot | loaded
+        pl .plainRead "mq->basep" [], pl .plainRead "mq->msg_len" []]⟩,  -- offsetOfSlot
+    ⟨"messageq_send", [
+        pl .plainRead "mq->basep" [], pl .plainRead "mq->msg_len" [],     -- slotOfOffset
+        sc .fetchOr "mq->full_flags" []]⟩,               -- SPc.wrote   → idle
+    ⟨"messageq_receive", [
+        pl .plainRead "mq->receivep" [],
+        sc .fetchAnd "mq->full_flags" [],                -- RPc.idle/polled → hold | idle
+        pl .plainRead "mq->queue_len" ["cond#1.cond"],   -- nextRecv
+        pl .plainWrite "mq->receivep" [],
+        pl .plainRead "mq->basep" [], pl .plainRead "mq->msg_len" []]⟩,
+    ⟨"messageq_release", [
+        sc .fetchAdd "mq->num_free" []]⟩,                -- RPc.read    → idle
+    ⟨"messageq_empty", [
+        sc .load "mq->full_flags" [],                    -- RPc.idle    → polled
+        pl .plainRead "mq->receivep" []]⟩ ]
+  fields := [
+    ⟨"messageq_t", "basep", "char *", false⟩,
+    ⟨"messageq_t", "msg_len", "uint16_t", false⟩,
+    ⟨"messageq_t", "queue_len", "unsigned char", false⟩,
+    ⟨"messageq_t", "num_free", "atomic_uchar", true⟩,
+    ⟨"messageq_t", "sendp", "atomic_uchar", true⟩,
+    ⟨"messageq_t", "full_flags", "atomic_uint", true⟩,
+    ⟨"messageq_t", "receivep", "unsigned char", false⟩ ]
+
+end Skeleton
 
 end Librfn.Model.MessageqConc
